@@ -191,14 +191,14 @@ package keeper
 //@ ensures [C19] other-auctions-untouched: forall(x, uint64, x != msg.AuctionId ==> Auction[x] == old(Auction[x]) && BidSeq[x] == old(BidSeq[x]))
 //@ ensures [C19] terms-unchanged: old(Auction[msg.AuctionId]).present ==> Auction[msg.AuctionId].present && sameExcept(Auction[msg.AuctionId], old(Auction[msg.AuctionId]), RemainingSellingCoin)
 //@ ensures [C01,C02,C04] reservation-moves-into-the-paying-escrow: err == nil ==> let(pd, old(Auction[msg.AuctionId]).PayingCoinDenom, bal(payEsc(msg.AuctionId), pd) == old(bal(payEsc(msg.AuctionId), pd)) + payOf(result0, pd))
-//@ ensures [C02] bidder-pays-fee-plus-reservation: err == nil ==> let(pd, old(Auction[msg.AuctionId]).PayingCoinDenom, forall(d, string, bal(addrOf(msg.Bidder), d) == old(bal(addrOf(msg.Bidder), d)) - coins(Params.PlaceBidFee, d) - ite(d == pd, payOf(result0, pd), 0)))
-//@ ensures [C02] fee-goes-to-the-community-pool: err == nil ==> forall(d, string, pool(d) == old(pool(d)) + coins(Params.PlaceBidFee, d))
+//@ ensures [C02,C18] bidder-pays-fee-plus-reservation: err == nil ==> let(pd, old(Auction[msg.AuctionId]).PayingCoinDenom, forall(d, string, bal(addrOf(msg.Bidder), d) == old(bal(addrOf(msg.Bidder), d)) - coins(Params.PlaceBidFee, d) - ite(d == pd, payOf(result0, pd), 0)))
+//@ ensures [C02,C18] fee-goes-to-the-community-pool: err == nil ==> forall(d, string, pool(d) == old(pool(d)) + coins(Params.PlaceBidFee, d))
 //@ ensures [C02,C19] nobody-else-pays: err == nil ==> forall(ad, Addr, forall(d, string, ad != addrOf(msg.Bidder) && (ad != payEsc(msg.AuctionId) || d != old(Auction[msg.AuctionId]).PayingCoinDenom) ==> bal(ad, d) == old(bal(ad, d))))
 //@ ensures [C06,C05] remainder-decreases-by-the-bid: err == nil && msg.BidType == BidTypeFixedPrice ==> Auction[msg.AuctionId].RemainingSellingCoin.Amount == old(Auction[msg.AuctionId]).RemainingSellingCoin.Amount - sellOf(result0, old(Auction[msg.AuctionId]).PayingCoinDenom) && Auction[msg.AuctionId].RemainingSellingCoin.Amount >= 0
 //@ ensures [C06,C19] batch-auction-record-untouched: msg.BidType != BidTypeFixedPrice ==> Auction == old(Auction)
 //@ ensures [C17] hook-fired-before-the-bid-is-written: err == nil && k.hooks != nil ==> hookN("BeforeBidPlaced") == old(hookN("BeforeBidPlaced")) + 1 && hookArgsAre("BeforeBidPlaced", result0.AuctionId, result0.Id, result0.Bidder, result0.Type, result0.Price, result0.Coin) && hookT("BeforeBidPlaced") < setT("Bid")
 //@ ensures [C17] veto-aborts-before-the-write: !HookOK ==> err != nil && Bid == old(Bid)
-//@ ensures [C01,C06,C10,C19] preserves-the-invariant: err == nil ==> Inv()
+//@ ensures [C01,C06,C10,C19,C02,C03,C04,C05,C07,C08,C09,C11,C12,C13,C16] preserves-the-invariant: err == nil ==> Inv()
 
 // ModifyBid (C11): only the owner, only while the batch auction is open, price and amount not lower and one of them
 // higher, same denomination, price floor respected; the extra charge is the increase of the required reservation.
@@ -218,7 +218,7 @@ package keeper
 //@ ensures [C02,C19] nobody-else-pays: result == nil ==> forall(ad, Addr, forall(d, string, ad != addrOf(msg.Bidder) && (ad != payEsc(msg.AuctionId) || d != Auction[msg.AuctionId].PayingCoinDenom) ==> bal(ad, d) == old(bal(ad, d))))
 //@ ensures [C17] hook-fired-before-the-bid-is-written: result == nil && k.hooks != nil ==> hookN("BeforeBidModified") == old(hookN("BeforeBidModified")) + 1 && hookArgsAre("BeforeBidModified", msg.AuctionId, msg.BidId, Bid[msg.AuctionId][msg.BidId].Bidder, Bid[msg.AuctionId][msg.BidId].Type, msg.Price, msg.Coin) && hookT("BeforeBidModified") < setT("Bid")
 //@ ensures [C17] veto-aborts-before-the-write: !HookOK ==> result != nil
-//@ ensures [C01,C10,C19] preserves-the-invariant: result == nil ==> Inv()
+//@ ensures [C01,C10,C19,C02,C03,C04,C05,C06,C07,C08,C09,C11,C12,C13,C16] preserves-the-invariant: result == nil ==> Inv()
 //@ ensures [C18,C11] accepted-when-conditions-hold: let(a, Auction[msg.AuctionId], let(b, old(Bid[msg.AuctionId][msg.BidId]), a.present && a.Status == AuctionStatusStarted && a.Kind == KindBatch && b.present && addrOf(b.Bidder) == addrOf(msg.Bidder) && msg.Price >= a.MinBidPrice && msg.Coin.Denom == b.Coin.Denom && msg.Price >= b.Price && msg.Coin.Amount >= b.Coin.Amount && (msg.Price > b.Price || msg.Coin.Amount > b.Coin.Amount) && old(bal(addrOf(msg.Bidder), a.PayingCoinDenom)) >= payOfPC(msg.Price, msg.Coin, a.PayingCoinDenom) - payOf(b, a.PayingCoinDenom) && ExternOK && HookOK ==> result == nil))
 
 // CreateFixedPriceAuction / CreateBatchAuction (C18, C19, C08, C01, C02, C17).
@@ -239,7 +239,7 @@ package keeper
 //@ ensures [C17] hooks-fire-around-the-write: err == nil && k.hooks != nil ==> hookN("BeforeFixedPriceAuctionCreated") == old(hookN("BeforeFixedPriceAuctionCreated")) + 1 && hookN("AfterFixedPriceAuctionCreated") == old(hookN("AfterFixedPriceAuctionCreated")) + 1 && hookT("BeforeFixedPriceAuctionCreated") < setT("Auction") && setT("Auction") < hookT("AfterFixedPriceAuctionCreated")
 //@ ensures [C17] hooks-get-the-recorded-values: err == nil && k.hooks != nil ==> hookArgsAre("BeforeFixedPriceAuctionCreated", msg.Auctioneer, msg.StartPrice, msg.SellingCoin, msg.PayingCoinDenom, msg.VestingSchedules, msg.StartTime, msg.EndTime) && hookArgsAre("AfterFixedPriceAuctionCreated", old(AuctionSeq), msg.Auctioneer, msg.StartPrice, msg.SellingCoin, msg.PayingCoinDenom, msg.VestingSchedules, msg.StartTime, msg.EndTime)
 //@ ensures [C17] veto-fails-the-creation: !HookOK ==> err != nil
-//@ ensures [C01,C19] preserves-the-invariant: err == nil ==> Inv()
+//@ ensures [C01,C19,C02,C03,C04,C05,C06,C07,C08,C09,C11,C12,C13,C16] preserves-the-invariant: err == nil ==> Inv()
 //@ ensures [C18] accepted-when-conditions-hold: old(BlockTime <= msg.EndTime && len(msg.VestingSchedules) <= 100 && forall(d, string, bal(addrOf(msg.Auctioneer), d) >= coins(Params.AuctionCreationFee, d) + ite(d == msg.SellingCoin.Denom, msg.SellingCoin.Amount, 0))) && ExternOK && HookOK ==> err == nil
 
 //@ func (Keeper).CreateBatchAuction
@@ -259,7 +259,7 @@ package keeper
 //@ ensures [C17] hooks-fire-around-the-write: err == nil && k.hooks != nil ==> hookN("BeforeBatchAuctionCreated") == old(hookN("BeforeBatchAuctionCreated")) + 1 && hookN("AfterBatchAuctionCreated") == old(hookN("AfterBatchAuctionCreated")) + 1 && hookT("BeforeBatchAuctionCreated") < setT("Auction") && setT("Auction") < hookT("AfterBatchAuctionCreated")
 //@ ensures [C17] hooks-get-the-recorded-values: err == nil && k.hooks != nil ==> hookArgsAre("BeforeBatchAuctionCreated", msg.Auctioneer, msg.StartPrice, msg.MinBidPrice, msg.SellingCoin, msg.PayingCoinDenom, msg.VestingSchedules, msg.MaxExtendedRound, msg.ExtendedRoundRate, msg.StartTime, msg.EndTime) && hookArgsAre("AfterBatchAuctionCreated", old(AuctionSeq), msg.Auctioneer, msg.StartPrice, msg.MinBidPrice, msg.SellingCoin, msg.PayingCoinDenom, msg.VestingSchedules, msg.MaxExtendedRound, msg.ExtendedRoundRate, msg.StartTime, msg.EndTime)
 //@ ensures [C17] veto-fails-the-creation: !HookOK ==> err != nil
-//@ ensures [C01,C19] preserves-the-invariant: err == nil ==> Inv()
+//@ ensures [C01,C19,C02,C03,C04,C05,C06,C07,C08,C09,C11,C12,C13,C16] preserves-the-invariant: err == nil ==> Inv()
 //@ ensures [C18] accepted-when-conditions-hold: old(BlockTime <= msg.EndTime && len(msg.VestingSchedules) <= 100 && msg.MaxExtendedRound <= 30 && forall(d, string, bal(addrOf(msg.Auctioneer), d) >= coins(Params.AuctionCreationFee, d) + ite(d == msg.SellingCoin.Denom, msg.SellingCoin.Amount, 0))) && ExternOK && HookOK ==> err == nil
 
 // AddAllowedBidders / UpdateAllowedBidder: the programming interface other modules use to maintain an allow-list (C10, C05, C17, C19).
@@ -274,7 +274,7 @@ package keeper
 //@ ensures [C10] nobody-is-removed: forall(x, uint64, forall(ad, Addr, old(AllowedBidder[x][ad]).present ==> AllowedBidder[x][ad].present))
 //@ ensures [C17] hook-fired-once-before-any-write: result == nil && k.hooks != nil ==> hookN("BeforeAllowedBiddersAdded") == old(hookN("BeforeAllowedBiddersAdded")) + 1 && hookArgsAre("BeforeAllowedBiddersAdded", allowedBidders)
 //@ ensures [C17] veto-aborts-before-any-write: !HookOK ==> result != nil && AllowedBidder == old(AllowedBidder)
-//@ ensures [C10,C19] preserves-the-invariant: InvAllowed()
+//@ ensures [C10,C19,C01,C02,C03,C04,C05,C06,C07,C08,C09,C11,C12,C13,C16] preserves-the-invariant: InvAllowed()
 //@ ensures [C15] entries-record-the-auction-they-are-stored-under: InvAllowedKey()
 //@ loop 0 invariant 0 <= idx && idx <= len(allowedBidders)
 //@ loop 0 invariant InvAllowed() && InvAllowedKey() && HookOK
@@ -291,7 +291,7 @@ package keeper
 //@ ensures [C19,C10] other-entries-untouched: forall(x, uint64, forall(ad, Addr, x != auctionId || ad != bidder ==> AllowedBidder[x][ad] == old(AllowedBidder[x][ad])))
 //@ ensures [C17] hook-fired-before-the-write: result == nil && k.hooks != nil ==> hookN("BeforeAllowedBidderUpdated") == old(hookN("BeforeAllowedBidderUpdated")) + 1 && hookArgsAre("BeforeAllowedBidderUpdated", auctionId, bidder, maxBidAmount) && hookT("BeforeAllowedBidderUpdated") < setT("AllowedBidder")
 //@ ensures [C17] veto-aborts-before-the-write: !HookOK ==> result != nil && AllowedBidder == old(AllowedBidder)
-//@ ensures [C10,C19] preserves-the-invariant: InvAllowed()
+//@ ensures [C10,C19,C01,C02,C03,C04,C05,C06,C07,C08,C09,C11,C12,C13,C16] preserves-the-invariant: InvAllowed()
 //@ ensures [C15] entry-records-the-auction-it-is-stored-under: InvAllowedKey()
 
 // Message server: the only message that can touch an allow-list is MsgAddAllowedBidder, and only with the testing
@@ -302,7 +302,7 @@ package keeper
 //@ ensures [C09,C13,C19] instalment-and-matched-length-invariants-are-kept: err == nil && old(Inv() && InvVQ() && InvMatched()) ==> InvVQ() && InvMatched()
 //@ ensures [C10] refused-unless-the-testing-switch-is-on: !EnableAddAllowedBidder ==> result1 != nil && AllowedBidder == old(AllowedBidder)
 //@ ensures [C10,C18] accepted-only-for-a-valid-entry: result1 == nil ==> EnableAddAllowedBidder && validAddr(msg.AllowedBidder.Bidder) && Auction[msg.AuctionId].present && msg.AllowedBidder.MaxBidAmount > 0
-//@ ensures [C10,C19] preserves-the-invariant: InvAllowed()
+//@ ensures [C10,C19,C01,C02,C03,C04,C05,C06,C07,C08,C09,C11,C12,C13,C16] preserves-the-invariant: InvAllowed()
 
 //@ func (msgServer).PlaceBid
 //@ requires Inv() && wfPlaceBid(msg) && !isEscrow(addrOf(msg.Bidder)) && BidSeq[msg.AuctionId] < 18446744073709551615
@@ -310,14 +310,14 @@ package keeper
 //@ ensures [C09,C13,C19] instalment-and-matched-length-invariants-are-kept: err == nil && old(Inv() && InvVQ() && InvMatched()) ==> InvVQ() && InvMatched()
 //@ ensures [C15,C10,C11] auction-ids-stay-dense: err == nil && old(InvAuctionsDense()) ==> InvAuctionsDense()
 //@ ensures [C10,C18,C08] recorded-only-for-allow-listed-bidders-of-open-auctions: result1 == nil ==> old(AllowedBidder[msg.AuctionId][addrOf(msg.Bidder)]).present && old(Auction[msg.AuctionId]).Status == AuctionStatusStarted
-//@ ensures [C01,C10,C19] preserves-the-invariant: result1 == nil ==> Inv()
+//@ ensures [C01,C10,C19,C02,C03,C04,C05,C06,C07,C08,C09,C11,C12,C13,C16] preserves-the-invariant: result1 == nil ==> Inv()
 
 //@ func (msgServer).ModifyBid
 //@ requires Inv() && wfModifyBid(msg) && !isEscrow(addrOf(msg.Bidder))
 //@ modifies Bid, Bal, HookN, HookT, SetT, XferN, XferT
 //@ ensures [C09,C13,C19] instalment-and-matched-length-invariants-are-kept: err == nil && old(Inv() && InvVQ() && InvMatched()) ==> InvVQ() && InvMatched()
 //@ ensures [C11,C08] only-the-owner-while-open: result1 == nil ==> old(Bid[msg.AuctionId][msg.BidId]).present && addrOf(old(Bid[msg.AuctionId][msg.BidId]).Bidder) == addrOf(msg.Bidder) && Auction[msg.AuctionId].Status == AuctionStatusStarted
-//@ ensures [C01,C10,C19] preserves-the-invariant: result1 == nil ==> Inv()
+//@ ensures [C01,C10,C19,C02,C03,C04,C05,C06,C07,C08,C09,C11,C12,C13,C16] preserves-the-invariant: result1 == nil ==> Inv()
 
 //@ func (msgServer).CancelAuction
 //@ requires Inv() && wfCancel(msg)
@@ -325,21 +325,21 @@ package keeper
 //@ ensures [C09,C13,C19] instalment-and-matched-length-invariants-are-kept: err == nil && old(Inv() && InvVQ() && InvMatched()) ==> InvVQ() && InvMatched()
 //@ ensures [C15,C10,C11] auction-ids-stay-dense: err == nil && old(InvAuctionsDense()) ==> InvAuctionsDense()
 //@ ensures [C12,C08] only-the-auctioneer-before-opening: result1 == nil ==> old(Auction[msg.AuctionId]).Status == AuctionStatusStandBy && validAddr(msg.Auctioneer) && addrOf(old(Auction[msg.AuctionId]).Auctioneer) == addrOf(msg.Auctioneer) && Auction[msg.AuctionId].Status == AuctionStatusCancelled
-//@ ensures [C19] preserves-the-invariant: InvAuctions()
+//@ ensures [C19,C01,C02,C03,C04,C05,C06,C07,C08,C09,C11,C12,C13,C16] preserves-the-invariant: InvAuctions()
 
 //@ func (msgServer).CreateFixedPriceAuction
 //@ requires Inv() && wfCreateFixed(msg) && timesSane(msg.VestingSchedules) && !isEscrow(addrOf(msg.Auctioneer)) && AuctionSeq < 18446744073709551615
 //@ modifies Auction, AuctionSeq, Bal, Pool, HookN, HookT, SetT, XferN, XferT
 //@ ensures [C09,C13,C19] instalment-and-matched-length-invariants-are-kept: err == nil && old(Inv() && InvVQ() && InvMatched()) ==> InvVQ() && InvMatched()
 //@ ensures [C15,C10,C11] auction-ids-stay-dense: err == nil && old(InvAuctionsDense()) ==> InvAuctionsDense()
-//@ ensures [C19,C01] preserves-the-invariant: result1 == nil ==> Inv() && AuctionSeq == old(AuctionSeq) + 1
+//@ ensures [C19,C01,C02,C03,C04,C05,C06,C07,C08,C09,C11,C12,C13,C16] preserves-the-invariant: result1 == nil ==> Inv() && AuctionSeq == old(AuctionSeq) + 1
 
 //@ func (msgServer).CreateBatchAuction
 //@ requires Inv() && wfCreateBatch(msg) && timesSane(msg.VestingSchedules) && !isEscrow(addrOf(msg.Auctioneer)) && AuctionSeq < 18446744073709551615
 //@ modifies Auction, AuctionSeq, Bal, Pool, HookN, HookT, SetT, XferN, XferT
 //@ ensures [C09,C13,C19] instalment-and-matched-length-invariants-are-kept: err == nil && old(Inv() && InvVQ() && InvMatched()) ==> InvVQ() && InvMatched()
 //@ ensures [C15,C10,C11] auction-ids-stay-dense: err == nil && old(InvAuctionsDense()) ==> InvAuctionsDense()
-//@ ensures [C19,C01] preserves-the-invariant: result1 == nil ==> Inv() && AuctionSeq == old(AuctionSeq) + 1
+//@ ensures [C19,C01,C02,C03,C04,C05,C06,C07,C08,C09,C11,C12,C13,C16] preserves-the-invariant: result1 == nil ==> Inv() && AuctionSeq == old(AuctionSeq) + 1
 
 //@ func (msgServer).UpdateParams
 //@ modifies Params, SetT
@@ -522,9 +522,13 @@ package keeper
 //@ func (Keeper).CalculateBatchAllocation
 //@ requires auctionFieldsWF(auction, auction.Id) && auction.Kind == KindBatch && InvBidsWF() && InvAllowed() && 0 <= BidSeq[auction.Id] && dense1(domOf(Bid, auction.Id), BidSeq[auction.Id])
 //@ requires Auction[auction.Id].present && Auction[auction.Id].Kind == KindBatch
-//@ modifies Bid, MatchedBidsLen, SetT, LastMatchTotal, LastMatchPrice
+//@ modifies Bid, MatchedBidsLen, SetT, LastMatchTotal, LastMatchPrice, LastAllocHas, LastAlloc, LastRefundHas, LastRefund
 //@ sets LastMatchTotal = result0.TotalMatchedAmount
 //@ sets LastMatchPrice = result0.MatchedPrice
+//@ sets LastAllocHas = dom(result0.AllocationMap)
+//@ sets LastAlloc = vals(result0.AllocationMap)
+//@ sets LastRefundHas = dom(result0.RefundMap)
+//@ sets LastRefund = vals(result0.RefundMap)
 //@ ensures [C13] records-the-matched-length: result1 == nil ==> result0.MatchedLen >= 0 && MatchedBidsLen[auction.Id].present && MatchedBidsLen[auction.Id] == result0.MatchedLen
 //@ ensures [C13,C19] other-matched-lengths-untouched: forall(x, uint64, x != auction.Id ==> MatchedBidsLen[x] == old(MatchedBidsLen[x]))
 //@ ensures [C11,C19,C16] only-matched-flags-of-this-auction-change: forall(a, uint64, forall(i, uint64, Bid[a][i].present == old(Bid[a][i]).present && ite(a == auction.Id, sameExcept(Bid[a][i], old(Bid[a][i]), IsMatched), Bid[a][i] == old(Bid[a][i]))))
@@ -586,7 +590,7 @@ package keeper
 //@ requires InvBidsWF() && 0 <= BidSeq[auction.Id] && dense1(domOf(Bid, auction.Id), BidSeq[auction.Id])
 //@ requires forall(t, Time, !VestingQueue[auction.Id][t].present)
 //@ requires 0 <= MatchedBidsLen[auction.Id]
-//@ modifies Auction, Bid, MatchedBidsLen, VestingQueue, Bal, HookN, HookT, SetT, XferN, XferT, LastMatchTotal, LastMatchPrice, *auction
+//@ modifies Auction, Bid, MatchedBidsLen, VestingQueue, Bal, HookN, HookT, SetT, XferN, XferT, LastMatchTotal, LastMatchPrice, LastAllocHas, LastAlloc, LastRefundHas, LastRefund, *auction
 //@ ensures [C19,C07] object-and-record-stay-well-formed: err == nil ==> auctionFieldsWF(auction, auction.Id) && (old(Auction[auction.Id].present ==> auctionFieldsWF(Auction[auction.Id], auction.Id)) && Auction[auction.Id].present ==> auctionFieldsWF(Auction[auction.Id], auction.Id))
 //@ ensures [C15,C10,C11] auction-ids-stay-dense: err == nil && old(InvAuctionsDense()) && old(Auction[auction.Id].present) ==> InvAuctionsDense()
 //@ ensures [C13] settles-when-no-round-is-left: result == nil && old(len(auction.EndTimes)) == auction.MaxExtendedRound + 1 ==> auction.Status != AuctionStatusStarted && len(auction.EndTimes) == old(len(auction.EndTimes))
@@ -595,6 +599,8 @@ package keeper
 //@ ensures [C13] an-extension-appends-one-period-and-moves-no-coins: result == nil && len(auction.EndTimes) != old(len(auction.EndTimes)) ==> len(auction.EndTimes) == old(len(auction.EndTimes)) + 1 && auction.EndTimes[len(auction.EndTimes)-1] == addDays(old(auction.EndTimes[len(auction.EndTimes)-1]), Params.ExtendedPeriod) && auction.Status == AuctionStatusStarted && Bal == old(Bal) && VestingQueue == old(VestingQueue)
 //@ ensures [C13,C08] otherwise-it-settles: result == nil && len(auction.EndTimes) == old(len(auction.EndTimes)) ==> auction.Status == ite(len(auction.VestingSchedules) == 0, AuctionStatusFinished, AuctionStatusVesting)
 //@ ensures [C01,C02] settlement-drains-the-escrows: result == nil && len(auction.EndTimes) == old(len(auction.EndTimes)) ==> bal(sellEsc(auction.Id), auction.SellingCoin.Denom) == 0 && bal(payEsc(auction.Id), auction.PayingCoinDenom) == 0
+//@ ensures [C02,C03,C04,C05] a-settlement-hands-every-bidder-their-allocation: result == nil && len(auction.EndTimes) == old(len(auction.EndTimes)) ==> forall(ad, Addr, ad != addrOf(auction.Auctioneer) && !isEscrow(ad) ==> bal(ad, auction.SellingCoin.Denom) == old(bal(ad, auction.SellingCoin.Denom)) + ite(LastAllocHas[strOf(ad)], LastAlloc[strOf(ad)], 0))
+//@ ensures [C02,C03,C04,C01] a-settlement-hands-every-bidder-their-refund: result == nil && len(auction.EndTimes) == old(len(auction.EndTimes)) ==> forall(ad, Addr, ad != addrOf(auction.Auctioneer) && !isEscrow(ad) ==> bal(ad, auction.PayingCoinDenom) == old(bal(ad, auction.PayingCoinDenom)) + ite(LastRefundHas[strOf(ad)], LastRefund[strOf(ad)], 0))
 //@ ensures [C16] an-extension-publishes-no-price: result == nil && len(auction.EndTimes) != old(len(auction.EndTimes)) ==> auction.MatchedPrice == old(auction.MatchedPrice)
 //@ ensures [C16] a-settlement-publishes-the-clearing-price-or-nothing: result == nil && len(auction.EndTimes) == old(len(auction.EndTimes)) ==> auction.MatchedPrice == ite(LastMatchTotal > 0, LastMatchPrice, old(auction.MatchedPrice))
 //@ ensures [C13,C07] matched-length-recorded-for-the-next-comparison: result == nil ==> MatchedBidsLen[auction.Id].present && MatchedBidsLen[auction.Id] >= 0
@@ -622,7 +628,7 @@ package keeper
 //@ requires InvAllowed() && Auction[auction.Id].present && Auction[auction.Id].Kind == auction.Kind
 //@ requires InvBidsWF() && 0 <= BidSeq[auction.Id] && dense1(domOf(Bid, auction.Id), BidSeq[auction.Id])
 //@ requires forall(t, Time, !VestingQueue[auction.Id][t].present) && 0 <= MatchedBidsLen[auction.Id]
-//@ modifies Auction, Bid, MatchedBidsLen, VestingQueue, Bal, HookN, HookT, SetT, XferN, XferT, LastMatchTotal, LastMatchPrice, *auction
+//@ modifies Auction, Bid, MatchedBidsLen, VestingQueue, Bal, HookN, HookT, SetT, XferN, XferT, LastMatchTotal, LastMatchPrice, LastAllocHas, LastAlloc, LastRefundHas, LastRefund, *auction
 //@ ensures [C19,C07] object-and-record-stay-well-formed: err == nil ==> auctionFieldsWF(auction, auction.Id) && (old(Auction[auction.Id].present ==> auctionFieldsWF(Auction[auction.Id], auction.Id)) && Auction[auction.Id].present ==> auctionFieldsWF(Auction[auction.Id], auction.Id))
 //@ ensures [C15,C10,C11] auction-ids-stay-dense: err == nil && old(InvAuctionsDense()) && old(Auction[auction.Id].present) ==> InvAuctionsDense()
 //@ ensures [C08] untouched-before-the-end-time: old(auction.EndTimes[len(auction.EndTimes)-1]) > BlockTime ==> result == nil && Auction == old(Auction) && Bid == old(Bid) && Bal == old(Bal) && VestingQueue == old(VestingQueue) && MatchedBidsLen == old(MatchedBidsLen) && auction.Status == AuctionStatusStarted
@@ -660,16 +666,16 @@ package keeper
 // finished and cancelled ones are left alone; the first failure is returned.
 //@ func (Keeper).BeginBlocker
 //@ requires Inv() && InvVQ() && InvMatched()
-//@ modifies Auction, Bid, MatchedBidsLen, VestingQueue, Bal, HookN, HookT, SetT, XferN, XferT, LastMatchTotal, LastMatchPrice
+//@ modifies Auction, Bid, MatchedBidsLen, VestingQueue, Bal, HookN, HookT, SetT, XferN, XferT, LastMatchTotal, LastMatchPrice, LastAllocHas, LastAlloc, LastRefundHas, LastRefund
 //@ ensures [C15,C10,C11] auction-ids-stay-dense: err == nil && old(InvAuctionsDense()) ==> InvAuctionsDense()
 //@ ensures [C08] status-moves-only-forward: result == nil ==> forall(x, uint64, old(Auction[x]).present ==> Auction[x].present && forward(old(Auction[x]).Status, Auction[x].Status))
 //@ ensures [C08,C12] no-auction-appears-or-disappears: result == nil ==> domOf(Auction) == old(domOf(Auction))
-//@ ensures [C08,C12] waiting-auctions-open-exactly-at-their-start-time: result == nil ==> let(dom, old(domOf(Auction)), forall(j, int, 0 <= j && j < ilistN(dom) ==> let(x, ilistKey(dom, j), old(Auction[x]).Status == AuctionStatusStandBy ==> Auction[x].Status == ite(old(Auction[x]).StartTime <= BlockTime, AuctionStatusStarted, AuctionStatusStandBy))))
-//@ ensures [C08] open-auctions-are-untouched-before-their-end-time: result == nil ==> let(dom, old(domOf(Auction)), forall(j, int, 0 <= j && j < ilistN(dom) ==> let(x, ilistKey(dom, j), old(Auction[x]).Status == AuctionStatusStarted && old(Auction[x]).EndTimes[len(old(Auction[x]).EndTimes)-1] > BlockTime ==> Auction[x] == old(Auction[x]))))
-//@ ensures [C08,C13] open-auctions-settle-or-extend-at-their-end-time: result == nil ==> let(dom, old(domOf(Auction)), forall(j, int, 0 <= j && j < ilistN(dom) ==> let(x, ilistKey(dom, j), old(Auction[x]).Status == AuctionStatusStarted && old(Auction[x]).EndTimes[len(old(Auction[x]).EndTimes)-1] <= BlockTime ==> (Auction[x].Status == ite(len(Auction[x].VestingSchedules) == 0, AuctionStatusFinished, AuctionStatusVesting)) || (Auction[x].Kind == KindBatch && Auction[x].Status == AuctionStatusStarted && len(Auction[x].EndTimes) == len(old(Auction[x]).EndTimes) + 1))))
+//@ ensures [C08,C12,C06] waiting-auctions-open-exactly-at-their-start-time: result == nil ==> let(dom, old(domOf(Auction)), forall(j, int, 0 <= j && j < ilistN(dom) ==> let(x, ilistKey(dom, j), old(Auction[x]).Status == AuctionStatusStandBy ==> Auction[x].Status == ite(old(Auction[x]).StartTime <= BlockTime, AuctionStatusStarted, AuctionStatusStandBy))))
+//@ ensures [C08,C06] open-auctions-are-untouched-before-their-end-time: result == nil ==> let(dom, old(domOf(Auction)), forall(j, int, 0 <= j && j < ilistN(dom) ==> let(x, ilistKey(dom, j), old(Auction[x]).Status == AuctionStatusStarted && old(Auction[x]).EndTimes[len(old(Auction[x]).EndTimes)-1] > BlockTime ==> Auction[x] == old(Auction[x]))))
+//@ ensures [C08,C13,C06] open-auctions-settle-or-extend-at-their-end-time: result == nil ==> let(dom, old(domOf(Auction)), forall(j, int, 0 <= j && j < ilistN(dom) ==> let(x, ilistKey(dom, j), old(Auction[x]).Status == AuctionStatusStarted && old(Auction[x]).EndTimes[len(old(Auction[x]).EndTimes)-1] <= BlockTime ==> (Auction[x].Status == ite(len(Auction[x].VestingSchedules) == 0, AuctionStatusFinished, AuctionStatusVesting)) || (Auction[x].Kind == KindBatch && Auction[x].Status == AuctionStatusStarted && len(Auction[x].EndTimes) == len(old(Auction[x]).EndTimes) + 1))))
 //@ ensures [C07,C08,C12] finished-and-cancelled-are-permanent-and-harmless: result == nil ==> let(dom, old(domOf(Auction)), forall(j, int, 0 <= j && j < ilistN(dom) ==> let(x, ilistKey(dom, j), old(Auction[x]).Status == AuctionStatusFinished || old(Auction[x]).Status == AuctionStatusCancelled ==> Auction[x] == old(Auction[x]))))
 //@ ensures [C19] agreed-terms-never-change: result == nil ==> forall(x, uint64, old(Auction[x]).present ==> sameExcept(Auction[x], old(Auction[x]), Status, EndTimes, MatchedPrice))
-//@ ensures [C07,C08,C19] preserves-the-module-invariant: result == nil ==> Inv() && InvVQ() && InvMatched()
+//@ ensures [C07,C08,C19,C01,C02,C03,C04,C05,C06,C09,C11,C12,C13,C16] preserves-the-module-invariant: result == nil ==> Inv() && InvVQ() && InvMatched()
 //@ loop 0 let DOM = domOf(Auction)
 //@ loop 0 invariant InvAuctions()
 //@ loop 0 invariant InvVQ()
